@@ -51,6 +51,13 @@ func genBase(r *Rng, prop string) *Scenario {
 	case "C07":
 		return genC07(r)
 	case "C11", "C16":
+		if prop == "C16" && r.chance(0.2) {
+			// connections ended by the reader's own failures (an acknowledgement
+			// that cannot be written) rather than by the network
+			sc := genC04(r)
+			sc.Cfg.SlowHandlerUs = 0 // C16's closed rule is timed to the end of the link
+			return sc
+		}
 		return genC11(r, prop)
 	case "C19":
 		switch r.IntN(10) {
